@@ -1,4 +1,4 @@
-package main
+package embx
 
 // Correspondence of the concrete method models (coq/theories/Emb.v) with the implementation: for every receive
 // of a modelled method the contract's storage tables and balances are dumped before and after, and the model
@@ -25,7 +25,31 @@ type modelled struct {
 }
 
 // (contract, method) -> model function and method number
-func modelOf(c *contractDef, m string) *modelled {
+func (w *world) modelOf(c *contractDef, m string) *modelled {
+	if w.locks {
+		switch c.Name {
+		case "sentinel":
+			switch m {
+			case definition.RegisterSentinelMethodName:
+				return &modelled{"emb_sentinel", 1}
+			case definition.RevokeSentinelMethodName:
+				return &modelled{"emb_sentinel", 2}
+			case definition.DepositQsrMethodName:
+				return &modelled{"emb_sentinel", 3}
+			case definition.WithdrawQsrMethodName:
+				return &modelled{"emb_sentinel", 4}
+			}
+		case "pillar":
+			switch m {
+			case definition.RevokeMethodName:
+				return &modelled{"emb_pillar", 1}
+			case definition.DepositQsrMethodName:
+				return &modelled{"emb_pillar", 2}
+			case definition.WithdrawQsrMethodName:
+				return &modelled{"emb_pillar", 3}
+			}
+		}
+	}
 	switch c.Name {
 	case "plasma":
 		switch m {
@@ -89,6 +113,7 @@ var errCodes = map[error]int64{
 	constants.ErrInvalidHashType: 8, constants.ErrInvalidHashDigest: 9, constants.ErrInvalidExpirationTime: 10,
 	constants.ReclaimNotDue: 11, constants.ErrExpired: 12, constants.ErrInvalidPreimage: 13, constants.ErrTokenInvalidText: 14,
 	constants.ErrTokenInvalidAmount: 15, constants.ErrIDNotUnique: 16, constants.ErrForbiddenParam: 17,
+	constants.ErrAlreadyRegistered: 18, constants.ErrNotEnoughDepositedQsr: 19, constants.ErrAlreadyRevoked: 20, constants.ErrInvalidName: 21, constants.ErrNotActive: 22,
 	constants.ErrInsufficientBalance: 100, constants.ErrContractMethodNotFound: 101, constants.ErrContractDoesntExist: 101,
 }
 
@@ -203,7 +228,9 @@ func (w *world) dumpToken() interface{} {
 	if err != nil {
 		panic(err)
 	}
-	sort.Slice(list, func(i, j int) bool { return string(list[i].TokenStandard.Bytes()) < string(list[j].TokenStandard.Bytes()) })
+	sort.Slice(list, func(i, j int) bool {
+		return string(list[i].TokenStandard.Bytes()) < string(list[j].TokenStandard.Bytes())
+	})
 	for _, t := range list {
 		l = append(l, Tup(Byt(t.TokenStandard.Bytes()), Con("Build_token", Byt(t.Owner.Bytes()), Byt([]byte(t.TokenName)), Byt([]byte(t.TokenSymbol)),
 			Byt([]byte(t.TokenDomain)), Big(t.TotalSupply), Big(t.MaxSupply), I64(int64(t.Decimals)), t.IsMintable, t.IsBurnable, t.IsUtility)))
@@ -249,6 +276,10 @@ func (w *world) dumpFor(c *contractDef, m *modelled, s *nom.AccountBlock) interf
 		return w.dumpHtlc()
 	case "emb_token":
 		return w.dumpToken()
+	case "emb_sentinel":
+		return w.dumpSentinel()
+	case "emb_pillar":
+		return w.dumpPillar()
 	}
 	return w.dumpCommon(c.Addr, s.Address)
 }
@@ -281,7 +312,7 @@ type embPre struct {
 }
 
 func (w *world) embBefore(c *contractDef, s *nom.AccountBlock) *embPre {
-	m := modelOf(c, methodOf(c, s.Data))
+	m := w.modelOf(c, methodOf(c, s.Data))
 	if m == nil {
 		return nil
 	}
@@ -323,6 +354,16 @@ func (w *world) embBefore(c *contractDef, s *nom.AccountBlock) *embPre {
 				Tup(I64(int64(definition.HashTypeSHA256)), Byt(prm.Preimage), Byt(crypto.HashSHA256(prm.Preimage))))
 		}
 	}
+	if m.fn == "emb_pillar" && m.id == 1 { // verdict of checkPillarNameStatic on the name carried by the call
+		name := new(string)
+		if definition.ABIPillars.UnpackMethod(name, definition.RevokeMethodName, s.Data) == nil {
+			ok := int64(0)
+			if len(*name) > 0 && len(*name) <= constants.PillarNameLengthMax && pillarNameRx.MatchString(*name) {
+				ok = 1
+			}
+			p.hashes = append(p.hashes, Tup(I64(ok), Byt([]byte(*name)), Byt(nil)))
+		}
+	}
 	return p
 }
 
@@ -336,7 +377,11 @@ func (w *world) embAfter(c *contractDef, s *nom.AccountBlock, p *embPre, ma *nom
 	}
 	post := w.dumpFor(c, p.m, s)
 	bal := w.balTerm(c.Addr, p.tokens)
-	in := Tup(I64(p.m.id), envTerm(ma.Height, ma.Timestamp.Unix()), Byt(c.Addr.Bytes()), p.state, p.bal, sendTerm(s), p.donate, p.hashes)
+	env := envTerm(ma.Height, ma.Timestamp.Unix())
+	if p.m.fn == "emb_sentinel" || p.m.fn == "emb_pillar" {
+		env = lenvTerm(ma.Timestamp.Unix())
+	}
+	in := Tup(I64(p.m.id), env, Byt(c.Addr.Bytes()), p.state, p.bal, sendTerm(s), p.donate, p.hashes)
 	tag := methodOf(c, s.Data) + ":" + map[bool]string{true: "applied", false: "refunded"}[retErr == nil]
 	if retErr != nil {
 		tag += ":" + retErr.Error()
